@@ -3,8 +3,12 @@ package main
 import (
 	"fmt"
 	"runtime"
+	"strconv"
 	"sync"
 	"sync/atomic"
+
+	"github.com/metal-toolbox/audito-maldito/internal/common"
+	"github.com/metal-toolbox/audito-maldito/processors/auditd/sessiontracker"
 
 	"github.com/metal-toolbox/audito-maldito/verif/vlib"
 )
@@ -325,6 +329,55 @@ func checkC02(r *vlib.Run) int {
 	r.Set("split_points_covered", len(st.splitCoverage))
 	r.Set("split_points_missing_for_len_le_6", missing)
 	r.Require(len(missing) == 0, fmt.Sprintf("split points never exercised: %v", missing))
+	// concurrent delivery: the session's events come from one goroutine (as
+	// from the parser), the login from another at a random moment, with
+	// delays injected at the hooked lock sites; the emitted list must still be
+	// the delivered list, once each, in order.
+	nConc := r.Pick(3000, 100000)
+	common.VerifLockHook = perturbHook(r.Seed)
+	var concBad int64
+	parallelDo(nConc, func(i int) {
+		rng := vlib.NewRng(r.Seed, "C02/conc/"+strconv.Itoa(i))
+		plan := mkPlan(1)
+		n := 3 + rng.Intn(8)
+		rec := vlib.NewRec()
+		rec.NoGid = true
+		tr := sessiontracker.NewSessionTracker(rec.Writer(), nil)
+		spin := rng.Intn(4000)
+		var wg sync.WaitGroup
+		wg.Add(2)
+		go func() {
+			defer wg.Done()
+			_ = applyOp(tr, plan, HOp{Kind: opRec, K: 0}, 0)
+			for e := 1; e <= n; e++ {
+				_ = applyOp(tr, plan, HOp{Kind: opEv, K: 0}, e)
+			}
+		}()
+		go func() {
+			defer wg.Done()
+			x := 0
+			for k := 0; k < spin; k++ {
+				x += k
+			}
+			_ = x
+			_ = applyOp(tr, plan, HOp{Kind: opLogin, K: 0}, 1000)
+		}()
+		wg.Wait()
+		var got []int
+		for _, c := range rec.Calls() {
+			got = append(got, int(c.Ev.LoggedAt.UnixMilli()-vlib.BaseTSms))
+		}
+		ok := len(got) == n+1
+		for k := range got {
+			ok = ok && got[k] == k
+		}
+		if !ok && atomic.AddInt64(&concBad, 1) <= 50 {
+			r.Violation("C02:concurrent:order-or-count", fmt.Sprintf("(rec;ev x%d) || login: emitted event numbers %v, delivered 0..%d in order", n, got, n), map[string]any{"events": n, "emitted": got})
+		}
+	})
+	common.VerifLockHook = nil
+	evals += nConc
+	r.Set("concurrent_delivery_runs", nConc)
 	r.Require(st.flushGE2 > 100, "fewer than 100 hold-queue flushes with >= 2 events")
 	r.Require(st.multiPending > 100, "fewer than 100 histories with two sessions pending at once")
 	if r.Thorough() {
